@@ -7,6 +7,13 @@ TRUST = ("trusted base: go/types + go/ssa (x/tools v0.50.0), goyacc v0.29.0's LA
          "interface calls that leave the module (Entry, plugins) are opaque")
 
 CHECKS = {
+    "C19": dict(
+        cat="other",
+        text=("Decides structural necessary conditions of total decoding and faithful encoding, not round-trip equality: in the schema-directed conversion and the JSON reader every index/slice expression and unchecked assertion is discharged by a guard that must still be present or a reviewed entry; no call's error is discarded with _ while its value is indexed or dereferenced; a JSON number is never converted float->integer before the schema type sees it; a scalar is stored only if sn.Validate accepted that very string, or it is the identityref simple form obtained by requiring and stripping exactly '<module>:' and validating the remainder again; the JSON writer sends every string-like value through json.Marshal with no hand-written quoting, and in every arm of the child encoder the brackets written are balanced on every path (path-enumerating balance count)."),
+        ref="DESIGN.md §4 C19",
+        technique="cone-wide index obligations with guard facts, dropped-error-then-use rule, conversion-kind rule, value-provenance rule on the validated/stored string, escape-discipline and bracket-pairing (acquire/release on every path) rules on the writer",
+        note="Not decided: encode/decode round-trip equality, the XML path beyond the shared conversion, numbers beyond 2^53 (encoding/json decodes into float64). " + TRUST,
+    ),
     "C18": dict(
         cat="other",
         text=("Thin, and stated as such: decides mechanisms that exact structural validation and default decoration depend on — the plain data node's fields have no writer but the constructor; the decorator stores nothing into, and never appends to, the child slice it receives, allocates a result of the same length and wraps child i at index i; a default is created only after a seen-name test skipped explicit children; leaf.HasDefault goes through leaf.Default, which suppresses a type default on a mandatory leaf; cardinalityInRange compares len < min and len > max with all-ones meaning unbounded; the table grouping list entries by unique-key is allocated inside the loop over the unique statements (SSA block-in-loop test). The mandatory/unique semantics on concrete trees are not decided."),
@@ -195,7 +202,7 @@ def main():
 
 
 NA = {}
-SOURCE_COMMITS = ["e91d74a fix: reject invalid UTF-8 inside literals and QName local parts", "ad0dbf5 fix: CreateProgram no longer panics when the error position underflows", "f5b2578 fix: a submodule may have at most one organization statement", "7be1c78 fix: spell the yin-element keyword correctly", "9e6f860 fix: boolean arguments accept only true and false", "779e276 fix: integer arguments are decimal only", "b95096a fix: identifiers are ASCII as the YANG ABNF requires", "2221591 fix: NewFakeNodeByType no longer writes into the shared cardinality table", "53dc864 fix: div follows IEEE 754 for a zero denominator", "ea66e69 fix: boolean() of NaN is false", "588031e fix: round() rounds ties towards positive infinity", "362e2bb fix: string() of a number never uses exponent notation", "9ac8c0a fix: string-length() and substring() count characters, not bytes", "9cf326e fix: a run stops at the first error an instruction reports", "fb4c9e7 fix: the tested-function table is accessed under the function-table lock", "8440a3d fix: the YANG lexer no longer hangs when the text ends inside an unquoted word", "bd7a52f fix: a failed parse no longer leaks the lexer goroutine", "8d5ab76 fix: a typedef that refers to itself is an error, not a stack overflow", "3484836 fix: shared features and groupings are not cycles", "71f7ba0 fix: grouping cycles through nested nodes are detected", "2ff1e55 fix: string length restrictions count characters, not bytes"]
+SOURCE_COMMITS = ["e91d74a fix: reject invalid UTF-8 inside literals and QName local parts", "ad0dbf5 fix: CreateProgram no longer panics when the error position underflows", "f5b2578 fix: a submodule may have at most one organization statement", "7be1c78 fix: spell the yin-element keyword correctly", "9e6f860 fix: boolean arguments accept only true and false", "779e276 fix: integer arguments are decimal only", "b95096a fix: identifiers are ASCII as the YANG ABNF requires", "2221591 fix: NewFakeNodeByType no longer writes into the shared cardinality table", "53dc864 fix: div follows IEEE 754 for a zero denominator", "ea66e69 fix: boolean() of NaN is false", "588031e fix: round() rounds ties towards positive infinity", "362e2bb fix: string() of a number never uses exponent notation", "9ac8c0a fix: string-length() and substring() count characters, not bytes", "9cf326e fix: a run stops at the first error an instruction reports", "fb4c9e7 fix: the tested-function table is accessed under the function-table lock", "8440a3d fix: the YANG lexer no longer hangs when the text ends inside an unquoted word", "bd7a52f fix: a failed parse no longer leaks the lexer goroutine", "8d5ab76 fix: a typedef that refers to itself is an error, not a stack overflow", "3484836 fix: shared features and groupings are not cycles", "71f7ba0 fix: grouping cycles through nested nodes are detected", "2ff1e55 fix: string length restrictions count characters, not bytes", "b580f61 fix: decoding a list entry whose key is not a scalar no longer panics", "129c467 fix: JSON numbers are not truncated to integers while decoding", "36fd764 fix: an empty leaf-list is encoded as null, not \"null]\""]
 
 if __name__ == "__main__":
     main()
